@@ -150,6 +150,29 @@ def build(text):
         return type(e).__name__, None, str(e)
 
 
+def _build_job(text):
+    oc, ck, msg = build(text)
+    if ck is None:
+        return oc, msg, None, False
+    try:
+        lvs().Checker.load(ck.save(), user_fns())
+        loadok = True
+    except Exception:  # noqa
+        loadok = False
+    return oc, msg, dump_model(ck.model), loadok
+
+
+def build_many(texts, procs):
+    """build() on many texts in worker processes (compile_lvs constructs its parser on every call, ~25 ms).
+    Returns [(outcome, message, model JSON | None, loadable)] in order."""
+    if procs <= 1 or len(texts) < 16:
+        return [_build_job(t) for t in texts]
+    import multiprocessing
+    from concurrent.futures import ProcessPoolExecutor
+    with ProcessPoolExecutor(procs, mp_context=multiprocessing.get_context('fork')) as ex:
+        return list(ex.map(_build_job, texts, chunksize=max(1, len(texts) // (procs * 8))))
+
+
 def _optj(o):
     return {'hv': o.value is not None, 'v': comp_str(o.value) if o.value else '',
             'ht': o.tag is not None, 'tag': o.tag if o.tag is not None else 0,
@@ -331,6 +354,17 @@ class Gen:
             return
         nsets = rng.choice([1, 1, 1, 2, 2, 3])
         for _ in range(nsets):
+            if r['cons'] and rng.random() < 0.35:
+                # a near-copy of the previous alternative: same shape, one literal changed (alternatives that
+                # differ only deep inside an option must stay different edges of the tree)
+                cs = json.loads(json.dumps(r['cons'][-1]))
+                lits = [x for c in cs for o in c['opts'] for x in ([o] if o['k'] == 'v' else
+                                                                   [a for a in o.get('args', []) if a['k'] == 'v'])]
+                if lits:
+                    x = rng.choice(lits)
+                    x['v'] = rng.choice([v for v in self.lits + ['u'] if v != x['v']])
+                    r['cons'].append(cs)
+                    continue
             cs = []
             for _ in range(rng.choice([1, 1, 2])):
                 pat = rng.choice(cands)
